@@ -13,3 +13,125 @@ def check(run):
     run.assumptions += ['allocation never fails', 'strdup bounded copy, formatting stubbed',
                         'NOT covered by a solver verdict in this round: CompoundParserSimple (string -> element list); see DESIGN.md C07 for what was tried']
     run.parallel(symbols(run))
+
+
+# ---- Engine B: the assembly half of CompoundParser (element list -> composition), locale handling, ownership
+def b_assemble(cl, mod, H):
+    import z3
+    from z3 import BitVec, BitVecVal, And, Or, Not, Implies, If, RealVal, BoolVal, Real, Bool, IntVal
+    from vlib.irsym import Eval, Prim, P, heap_prims
+    S32 = z3.BitVecSort(32); S64 = z3.BitVecSort(64); R = z3.RealSort()
+    NMAX = 3
+    ev = Eval(mod, unroll=NMAX + 1)
+    ev.prims = heap_prims()
+    ok = Bool('formula_parses'); partial = Bool('list_partially_built')
+    n = BitVec('nElements', 32)
+    B = lambda v: BitVecVal(v, 64)
+    Zi = lambda i: ev.uf('elems|2', [S64, S64], S32)(B(i), B(0)); Ni = lambda i: ev.uf('elems|2', [S64, S64], R)(B(i), B(1))
+    ev.axioms.append(And(n >= 1, n <= NMAX))
+    for i in range(NMAX): ev.axioms.append(Ni(i) > 0)        # contract of the scanner: atom counts are positive (zero subscripts are rejected)
+    LOCALE_USER, LOCALE_C = 0, 1
+    dups = {}
+    def setlocale(ev_, st, args, ins):
+        cur = st.mem.get(('locale', ('cur',)), BitVecVal(LOCALE_USER, 8))
+        name = args[1]
+        new = cur
+        for g, t in name.alts:
+            if t is None: continue                      # query
+            obj = t[0]
+            if obj.startswith('g:'):                    # string literal: must be "C"
+                gl = ev_.mod.globals.get(obj[2:]); lit = ''.join(chr(e.v) for e in gl['init'].elems[:-1]) if gl and gl['init'] is not None else '?'
+                ev_.oblig.append((st.pc, BoolVal(lit == 'C'), 'setlocale is only called with "C" or a saved locale name'))
+                new = If(g, BitVecVal(LOCALE_C, 8), new)
+            elif obj in dups: new = If(g, dups[obj], new)   # a saved name: the locale that was in force when it was saved
+            else: ev_.oblig.append((st.pc, BoolVal(False), 'setlocale called with an unknown string'))
+        st.mem[('locale', ('cur',))] = new
+        st.cnt[('setlocale',)] = st.cnt.get(('setlocale',), IntVal(0)) + 1
+        return P.to('str:locale_now#%d' % next(ev_.fresh), (0,))   # the name of the locale now in force (library-owned storage)
+    def xrl_strdup(ev_, st, args, ins):
+        obj = 'm:%d' % next(ev_.fresh); ev_.heap_objs.append(obj); st.cnt[('alloc', obj)] = IntVal(1)
+        src = args[0].single()
+        if src is not Ellipsis and src is not None and src[0].startswith('str:locale_now'):
+            dups[obj] = st.mem.get(('locale', ('cur',)), BitVecVal(LOCALE_USER, 8))      # copy of the current locale's name
+        return P.to(obj, (0,))
+    def cps(ev_, st, args, ins):
+        ca = args[1]
+        ev_.store(st, ev_.gep(ca, [BitVecVal(0, 64), BitVecVal(0, 32)]), If(ok, n, If(partial, n, BitVecVal(0, 32))), None)
+        elems = P([(Or(ok, partial), ('h:elems', (0,))), (Not(Or(ok, partial)), None)])
+        ev_.heap_objs.append('h:elems'); st.cnt[('alloc', 'h:elems')] = If(Or(ok, partial), IntVal(1), IntVal(0))
+        ev_.store(st, ev_.gep(ca, [BitVecVal(0, 64), BitVecVal(1, 32)]), elems, None)
+        ev_.set_error(st, args[2], code=1, msg=None, how='CompoundParserSimple', when=Not(ok))
+        # strtod runs in here: the locale must be "C" at this point
+        ev_.oblig.append((st.pc, st.mem.get(('locale', ('cur',)), BitVecVal(LOCALE_USER, 8)) == LOCALE_C, 'the formula is scanned under the "C" numeric locale'))
+        return If(ok, BitVecVal(1, 32), BitVecVal(0, 32))
+    AW = ev.uf('AtomicWeight', [S32], R)
+    ev.prims.update({'setlocale': Prim(kind='custom', post=setlocale), 'xrl_strdup': Prim(kind='custom', post=xrl_strdup),
+                     'CompoundParserSimple': Prim(kind='custom', post=cps), 'AtomicWeight': Prim()})
+    ev.nonnull_roots = ('h:elems',)
+    r = ev.call('CompoundParser', [P.to('h:formula', (0,))])
+    rn = ev.call('CompoundParser', [P.null()])
+    fns = ['CompoundParser', 'FreeCompoundData']
+    st = r.st
+    cur = st.mem.get(('locale', ('cur',)), BitVecVal(LOCALE_USER, 8))
+    cl.add('C07/assemble/locale', ev, BoolVal(True), cur == LOCALE_USER, 'after the call the numeric locale is the one the caller had (success and failure alike)', functions=fns)
+    cl.add('C07/assemble/null', ev, BoolVal(True), And(rn.rv.is_null(), rn.errset, rn.sets_on_slot == 1), 'NULL formula: NULL + one error, the locale is not touched', functions=fns)
+    # ownership: every block allocated during the call is freed exactly once, except the returned composition (4 blocks) on success
+    weigh = lambda k: And(*[AW(Zi(i)) > 0 for i in range(k)])
+    for k in range(1, NMAX + 1):
+        pre = And(ok, n == k)
+        good = And(pre, weigh(k))
+        cdp = r.rv
+        tgt = [t for g, t in cdp.alts if t is not None]
+        summ = sum([AW(Zi(i)) * Ni(i) for i in range(k)], RealVal(0)); alln = sum([Ni(i) for i in range(k)], RealVal(0))
+        def fld(obj, path, ty=None):
+            return st.mem.get((obj, path))
+        concl = [Not(cdp.is_null()), Not(r.errset), r.overwrites == 0]
+        if len(tgt) == 1:
+            cd = tgt[0][0]
+            el = fld(cd, (0, 2)); mf = fld(cd, (0, 3)); na = fld(cd, (0, 4))
+            concl += [fld(cd, (0, 0)) == k, fld(cd, (0, 5)) == summ, fld(cd, (0, 1)) == alln]
+            for i in range(k):
+                eo = [t for g, t in el.alts if t is not None][0][0]; mo = [t for g, t in mf.alts if t is not None][0][0]; no = [t for g, t in na.alts if t is not None][0][0]
+                concl += [st.mem.get((eo, (i,))) == Zi(i), st.mem.get((mo, (i,))) == AW(Zi(i)) * Ni(i) / summ, st.mem.get((no, (i,))) == Ni(i)]
+        cl.add('C07/assemble/n%d/value' % k, ev, And(good, summ != 0), And(*[c for c in concl if c is not None]),
+               'composition of %d elements: Elements and atom counts copied in order, nAtomsAll = sum n_i, molarMass = sum n_i A_i, massFraction_i = n_i A_i / molarMass' % k, functions=fns)
+        cl.add('C07/assemble/n%d/unweighable' % k, ev, And(pre, Not(weigh(k))), And(cdp.is_null(), r.errset, r.sets_on_slot == 1, r.overwrites == 0),
+               'an element without atomic weight: NULL + one error', functions=fns)
+    cl.add('C07/assemble/reject', ev, Not(ok), And(r.rv.is_null(), r.errset, r.sets_on_slot == 1, r.overwrites == 0), 'a rejected formula: NULL + the scanner\'s single error', functions=fns)
+    # leak freedom on every path
+    leak = []
+    returned = set()
+    for g, t in r.rv.alts:
+        if t is not None: returned.add(t[0])
+    for obj in ev.heap_objs:
+        al = st.cnt.get(('alloc', obj), IntVal(0)); fr = st.cnt.get(('free', obj), IntVal(0))
+        leak.append((obj, al, fr))
+    # blocks reachable from the returned composition survive on success; everything else is freed exactly as often as allocated
+    cd_objs = set(returned)
+    for o in list(returned):
+        for fpath in ((0, 2), (0, 3), (0, 4)):
+            v = st.mem.get((o, fpath))
+            if v is not None:
+                for g, t in v.alts:
+                    if t is not None: cd_objs.add(t[0])
+    succ = Not(r.rv.is_null())
+    conj = []
+    for obj, al, fr in leak:
+        if obj in cd_objs: conj.append(If(succ, fr == 0, fr == al))
+        else: conj.append(fr == al)
+    cl.add('C07/assemble/ownership', ev, BoolVal(True), And(*conj),
+           'every block allocated during the call (formula copy, saved locale name, scanner element list, partially built composition) is freed exactly once on every path; only the returned composition survives', functions=fns)
+    cl.side_obligations('C07/assemble/side', ev, functions=fns, allow_static=())
+
+
+def check_b(run):
+    from vlib import bcheck
+    from vlib.headers import macros
+    H = macros(run)
+    mod = bcheck.load_units(run, ['xraylib-parser.c'])
+    bcheck.run_groups(run, [('C07/assemble', lambda cl: b_assemble(cl, mod, H), ())])
+
+_check_a = check
+def check(run):
+    _check_a(run)
+    check_b(run)
